@@ -404,6 +404,9 @@ func checkProgram(env *jbuild.Env, pool *simpool.Pool, p *seqgen.Program, dir st
 					file string
 					line int
 				}{{yWhere, 9}, {mainGo, p.Wheres[id]}}
+				if p.WhereV[id] {
+					want[0].line = 14 // y.WhereV
+				}
 				for fi, w := range want {
 					m, ok := lookup(byLine, locs[fi][0], locs[fi][1])
 					if !ok || !m.hasSrc {
@@ -517,7 +520,7 @@ func Run(tier string, seed int64, workers int) int {
 			continue
 		}
 		reported[v.class] = true
-		prog, _ := json.Marshal(map[string]any{"files": v.prog.Files, "wheres": v.prog.Wheres, "variant": v.variant})
+		prog, _ := json.Marshal(map[string]any{"files": v.prog.Files, "wheres": v.prog.Wheres, "wherev": v.prog.WhereV, "variant": v.variant})
 		rp := &evidence.Replay{Property: "C19", Class: v.class, Message: v.msg, Kind: "c19corpus", Workload: prog, Tape: v.tape, Digest: evidence.Digest(v.class), Seed: seed, FoundAt: tier + " corpus"}
 		path, err := evidence.WriteReplay(jbuild.VerifDir(), rp)
 		if err != nil {
@@ -558,6 +561,7 @@ func Replay(rp *evidence.Replay) int {
 	var w struct {
 		Files  map[string]string `json:"files"`
 		Wheres map[int]int       `json:"wheres"`
+		WhereV map[int]bool      `json:"wherev"`
 	}
 	if err := json.Unmarshal(rp.Workload, &w); err != nil {
 		fmt.Fprintln(os.Stderr, err)
@@ -580,7 +584,7 @@ func Replay(rp *evidence.Replay) int {
 	jbuild.WriteFiles(dir, w.Files)
 	res := &corpusResult{counters: map[string]int{}}
 	var mu sync.Mutex
-	checkProgram(env, pool, &seqgen.Program{Files: w.Files, Wheres: w.Wheres}, dir, "replay", 3, res, &mu)
+	checkProgram(env, pool, &seqgen.Program{Files: w.Files, Wheres: w.Wheres, WhereV: w.WhereV}, dir, "replay", 3, res, &mu)
 	if res.infra != nil {
 		fmt.Fprintln(os.Stderr, res.infra)
 		return 2
